@@ -182,7 +182,7 @@ def run(ck):
                          {"failing_input_found": False, "correspondence": "L1 widget formula tie (logic/proverkey.rs, logic/verifierkey.rs)", "tuple": line, "impl": a, "model": b, "theorems_no_longer_tied": THEOREMS})
     return ck.finish(level="proof",
         rule="exhaustive over pair counts 0..=127 x {AND, XOR} x value pairs {(r-1, all-ones), random, equal below the width, a with a+r in range}; every real snapshot compared with the model; returned value compared with the bitwise op; honest / forged accumulator / forged product / forced output / a+r accumulator assignments decided on the real layout by the extracted row evaluator; L1 logic widget tuples",
-        assumptions=["PrimeR (prime r)", "asg ZERO = 0", "completeness (C10_logic_complete) is proved for the accumulator / product values the model computes; that the real gadget computes them is the L3 tie"],
+        assumptions=["PrimeR (prime r): class argument of the statements, proved closed in Props/Hypotheses.v", "asg ZERO = 0", "completeness (C10_logic_complete) is proved for the accumulator / product values the model computes; that the real gadget computes them is the L3 tie"],
         checker_cmd=proofgate.CHECKER_CMD, trusted_base=proofgate.TRUSTED, extra={"exhaustive": True})
 
 def replay(ck, path):
